@@ -29,6 +29,16 @@
 //   OTHER id                        peer sends a frame of type ERROR
 // case <id> svc=0 sys=1   TWO real channels: the client's (user-owned, as svc=0) on one end of the socketpair, the
 //                         server's, made by the real RpcServer::onConnection, on the other end; no scripted peer.
+//                         sys=2: the same two channels, both calling and serving: the client's channel gets the service table
+//                         too (end A, user-owned), the server's channel (end B, owned by RpcServer) makes calls as well:
+//                           CALLB c r d meth req   a call made on end B's channel        ADONE k data   the service at end A completes
+//                           PUMPA = PUMPC, PUMPB = PUMPS                                 DOWNA / DOWNB  that end's connection goes DOWN
+//                         (forceClose of that TcpConnection; the driver keeps the object, so the other end sees no EOF:
+//                          each end goes DOWN on its own, as in the model; frames towards a dead end are never read)
+//                         output lines carry end B's channel too:  ... pend=<B's> b:next=<id_> outs=<..> pend=<A's>
+//                         seg=<k> (with sys=1/2): every write(2) on either connection takes at most k bytes (--wrap=write), so
+//                         RpcCodec / TcpConnection see every frame cut into k-byte pieces: partial writes buffered and
+//                         flushed on POLLOUT, partial frames waiting in the input Buffer
 //   PUMPS / PUMPC                   the server's / the client's connection reads what has arrived (all complete frames)
 //                                   (CALL, F/R/S, BURST on the client; DONE completes a request the service deferred)
 //   SER type id svc meth req resp err   RpcMessage built field by field ("~" = field absent, "-" = present and empty,
@@ -106,6 +116,8 @@ static TcpConnectionPtr g_conn;
 static TcpConnectionPtr g_sconn;       // sys=1: the server's end
 static RpcChannel* g_chan = NULL;
 static int g_connfd = -1, g_peer = -1;
+static int g_sconnfd = -1;             // sys=1: the server end's descriptor
+static size_t g_seg = 0;               // seg=<k>: at most k bytes per write(2) on the two connections
 static std::vector<string> g_ev;
 static string g_wire;
 static bool g_curCorrupt = false;       // the RESPONSE being delivered carries an X payload
@@ -302,6 +314,7 @@ static pthread_t g_mainThread;
 
 extern "C" ssize_t __wrap_write(int fd, const void* buf, size_t n)
 {
+  if (g_seg > 0 && fd >= 0 && (fd == g_connfd || fd == g_sconnfd) && n > g_seg) n = g_seg;     // a short write
   ssize_t w = __real_write(fd, buf, n);
   if (g_answerArmed && fd == g_connfd && g_connfd >= 0 && pthread_equal(pthread_self(), g_mainThread))
   {
@@ -348,6 +361,9 @@ extern "C" void c19_atomic_access(const volatile void* addr)
 struct Deferred { c19::TestMsg* response; google::protobuf::Closure* done; bool completed; };
 static std::map<int, Deferred> g_deferred;
 static int g_tok = 0;
+static int g_tokA = 0;                 // sys=2: tokens of the service calls made through end A's channel
+static int g_servEnd = 0;              // 1 while end A's connection is reading (the service then serves end A)
+static const int kEndA = 1000000;      // key offset of end A's deferred requests in g_deferred
 
 class TestServiceImpl : public c19::TestService
 {
@@ -356,8 +372,8 @@ class TestServiceImpl : public c19::TestService
             google::protobuf::Closure* done) override
   {
     drainWire();
-    int k = g_tok++;
-    g_ev.push_back("dispatch:" + std::to_string(k) + ":Echo:" + hexOrDash(request->data()));
+    int k = g_servEnd ? g_tokA++ : g_tok++;
+    g_ev.push_back(string(g_servEnd ? "adispatch:" : "dispatch:") + std::to_string(k) + ":Echo:" + hexOrDash(request->data()));
     response->set_data(request->data());
     done->Run();
   }
@@ -365,10 +381,10 @@ class TestServiceImpl : public c19::TestService
              google::protobuf::Closure* done) override
   {
     drainWire();
-    int k = g_tok++;
-    g_ev.push_back("dispatch:" + std::to_string(k) + ":Defer:" + hexOrDash(request->data()));
+    int k = g_servEnd ? g_tokA++ : g_tok++;
+    g_ev.push_back(string(g_servEnd ? "adispatch:" : "dispatch:") + std::to_string(k) + ":Defer:" + hexOrDash(request->data()));
     Deferred d = { response, done, false };
-    g_deferred[k] = d;
+    g_deferred[k + (g_servEnd ? kEndA : 0)] = d;
   }
 };
 
@@ -384,19 +400,30 @@ static CallRec* newCall(const string& label, bool r, bool d)
   return rec;
 }
 
-static void doCall(CallRec* rec, const string& meth, const string& reqdata)
+static void doCallOn(RpcChannel* ch, CallRec* rec, const string& meth, const string& reqdata)
 {
-  c19::TestService::Stub stub(g_chan);
+  c19::TestService::Stub stub(ch);
   c19::TestMsg req;
   req.set_data(reqdata);
   if (meth == "Echo") stub.Echo(NULL, &req, rec->resp, rec->done);
-  else if (meth == "Ping") { c19::OtherService::Stub other(g_chan); other.Ping(NULL, &req, rec->resp, rec->done); }
+  else if (meth == "Ping") { c19::OtherService::Stub other(ch); other.Ping(NULL, &req, rec->resp, rec->done); }
   else stub.Defer(NULL, &req, rec->resp, rec->done);
 }
+
+static void doCall(CallRec* rec, const string& meth, const string& reqdata) { doCallOn(g_chan, rec, meth, reqdata); }
+
+static RpcChannel* g_chanB = NULL;     // sys=2: end B's channel (made by RpcServer::onConnection)
 
 static void scanCalls()
 {
   std::set<const void*> dones;
+  if (g_chanB)
+  {
+    MutexLockGuard lock(g_chanB->mutex_);
+    for (std::map<int64_t, RpcChannel::OutstandingCall>::const_iterator it = g_chanB->outstandings_.begin();
+         it != g_chanB->outstandings_.end(); ++it)
+      dones.insert(it->second.done);
+  }
   if (g_chan)
   {
     MutexLockGuard lock(g_chan->mutex_);
@@ -447,6 +474,9 @@ int main()
   bool down = false;         // the connection went DOWN in this case
   int mode = 0;              // svc=<mode>
   bool sysmode = false;      // sys=1: two channels
+  bool bidi = false;         // sys=2: both ends call and serve
+  bool downA = false, downB = false;
+  int64_t lastNextB = 0;
   int64_t lastNext = 0;      // id_ as last seen (a destroyed channel cannot be asked)
   string line;
   while (std::getline(std::cin, line))
@@ -471,12 +501,22 @@ int main()
       mode = 0;
       lastNext = 0;
       sysmode = false;
+      bidi = false;
+      downA = downB = false;
+      lastNextB = 0;
+      g_chanB = NULL;
+      g_tokA = 0;
+      g_servEnd = 0;
+      g_seg = 0;
+      g_sconnfd = -1;
       for (size_t i = 2; i < w.size(); ++i)
       {
         if (w[i] == "svc=1") { svc = true; mode = 1; }
         if (w[i] == "svc=2") mode = 2;
         if (w[i] == "obs=1") obs = true;
         if (w[i] == "sys=1") sysmode = true;
+        if (w[i] == "sys=2") { sysmode = true; bidi = true; }
+        if (w[i].compare(0, 4, "seg=") == 0) g_seg = static_cast<size_t>(atoi(w[i].c_str() + 4));
       }
 
       InetAddress a(1), b(2);
@@ -504,12 +544,18 @@ int main()
       if (sysmode)
       {
         g_peer = -1;                       // nobody scripts the other end: it is the server's connection
+        g_sconnfd = sv[1];
         g_sconn.reset(new TcpConnection(&loop, "s" + w[1], sv[1], b, a));
         g_sconn->setCloseCallback([&loop](const TcpConnectionPtr& c) {
           loop.queueInLoop(std::bind(&TcpConnection::connectDestroyed, c));
         });
         g_sconn->setConnectionCallback(std::bind(&RpcServer::onConnection, &server, _1));
         g_sconn->connectEstablished();
+        if (bidi)
+        {
+          g_chan->setServices(&server.services_);          // end A serves too
+          g_chanB = boost::any_cast<RpcChannelPtr>(g_sconn->getContext()).get();
+        }
       }
       string s = "NULL";
       if (g_chan->services_)
@@ -524,7 +570,7 @@ int main()
           for (int i = 0; i < d->method_count(); ++i) { if (i) s += "+"; s += d->method(i)->name(); }
         }
       }
-      if (sysmode) s = "SYS";
+      if (sysmode) s = bidi ? "SYS2" : "SYS";
       printf("case %s services=%s\n", w[1].c_str(), s.c_str());
       continue;
     }
@@ -549,6 +595,7 @@ int main()
         g_conn->forceCloseInLoop();
       loop.doPendingFunctors();
       loop.doPendingFunctors();
+      g_chanB = NULL;
       if (g_sconn)
       {
         if (g_sconn->channel_->addedToLoop_ && (g_sconn->state_ == TcpConnection::kConnected || g_sconn->state_ == TcpConnection::kDisconnecting))
@@ -776,19 +823,81 @@ int main()
       m.set_id(static_cast<uint64_t>(strtoll(w[1].c_str(), NULL, 10)));
       if (down) rejected = true; else feed(m);
     }
-    else if (k == "PUMPS" || k == "PUMPC")
+    else if (k == "CALLB")
     {
-      TcpConnectionPtr c = (k == "PUMPS") ? g_sconn : g_conn;
-      if (!sysmode || !c) rejected = true;
+      if (!bidi || g_chanB == NULL || (w[2] != "1" && !obs)) rejected = true;
       else
       {
-        struct pollfd pf = { c->channel_->fd(), POLLIN, 0 };
-        if (::poll(&pf, 1, 0) > 0 && (pf.revents & POLLIN))
+        CallRec* rec = newCall(w[1], w[2] == "1", w[3] == "1");
+        doCallOn(g_chanB, rec, w[4], vh::bytesOfSpec(w[5]));
+        rec->registered = true;
+      }
+    }
+    else if (k == "ADONE")
+    {
+      int t = atoi(w[1].c_str());
+      std::map<int, Deferred>::iterator it = g_deferred.find(t + kEndA);
+      if (!bidi || it == g_deferred.end() || it->second.completed) rejected = true;
+      else
+      {
+        it->second.completed = true;
+        it->second.response->set_data(vh::bytesOfSpec(w[2]));
+        it->second.done->Run();
+      }
+    }
+    else if (k == "DOWNA" || k == "DOWNB")
+    {
+      bool isA = (k == "DOWNA");
+      if (!bidi || (isA ? downA : downB)) rejected = true;
+      else
+      {
+        TcpConnectionPtr c = isA ? g_conn : g_sconn;
+        // what this end has already handed to its connection is on its way (the model's frames under way): finish
+        // the short writes of seg=<k> first; forceClose would drop them, which the model does not describe
+        for (int round = 0; round < 1000000 && c->outputBuffer_.readableBytes() > 0; ++round)
         {
           Channel* ch = c->channel_.get();
-          ch->set_revents(POLLIN);
+          ch->set_revents(POLLOUT);
           ch->handleEvent(Timestamp::now());
         }
+        c->forceCloseInLoop();                     // handleClose -> connection callback (DOWN) -> close callback
+        if (!isA) g_chanB = NULL;                  // RpcServer::onConnection dropped end B's channel
+        loop.doPendingFunctors();                  // connectDestroyed
+        if (isA) downA = true; else downB = true;
+      }
+    }
+    else if (k == "PUMPS" || k == "PUMPC" || k == "PUMPA" || k == "PUMPB")
+    {
+      bool toB = (k == "PUMPS" || k == "PUMPB");
+      TcpConnectionPtr c = toB ? g_sconn : g_conn;
+      if (!sysmode || !c) rejected = true;
+      else if (toB ? downB : downA) {}             // a dead connection reads nothing
+      else
+      {
+        g_servEnd = toB ? 0 : 1;
+        TcpConnectionPtr sender = toB ? g_conn : g_sconn;
+        if (toB ? downA : downB) sender.reset();   // a dead connection writes nothing more
+        for (int round = 0; round < 1000000; ++round)
+        {
+          bool progress = false;
+          struct pollfd pf = { c->channel_->fd(), POLLIN, 0 };
+          if (::poll(&pf, 1, 0) > 0 && (pf.revents & POLLIN))
+          {
+            Channel* ch = c->channel_.get();
+            ch->set_revents(POLLIN);
+            ch->handleEvent(Timestamp::now());       // whatever has arrived, a whole frame or a piece of one
+            progress = true;
+          }
+          if (sender && sender->outputBuffer_.readableBytes() > 0)
+          {
+            Channel* ch = sender->channel_.get();
+            ch->set_revents(POLLOUT);
+            ch->handleEvent(Timestamp::now());       // handleWrite: the next piece of what a short write left behind
+            progress = true;
+          }
+          if (!progress) break;
+        }
+        g_servEnd = 0;
       }
     }
     else if (k == "SER")
@@ -854,9 +963,29 @@ int main()
       }
     }
     for (std::map<int, Deferred>::const_iterator it = g_deferred.begin(); it != g_deferred.end(); ++it)
-      if (!it->second.completed) { if (!pend.empty()) pend += ","; pend += std::to_string(it->first); }
-    printf("%s ev=%s next=%lld outs=%s pend=%s\n", rejected ? "rejected" : "ok", ev.c_str(),
-           static_cast<long long>(lastNext), outs.empty() ? "-" : outs.c_str(), pend.empty() ? "-" : pend.c_str());
+      if (!it->second.completed && it->first < kEndA) { if (!pend.empty()) pend += ","; pend += std::to_string(it->first); }
+    string btail;
+    if (bidi)
+    {
+      string outsb, penda;
+      if (g_chanB)
+      {
+        lastNextB = g_chanB->id_.get();
+        MutexLockGuard lock(g_chanB->mutex_);
+        for (std::map<int64_t, RpcChannel::OutstandingCall>::const_iterator it = g_chanB->outstandings_.begin();
+             it != g_chanB->outstandings_.end(); ++it)
+        {
+          if (!outsb.empty()) outsb += ",";
+          outsb += std::to_string(it->first) + ":r" + (it->second.response ? "1" : "0") + "d" + (it->second.done ? "1" : "0");
+        }
+      }
+      for (std::map<int, Deferred>::const_iterator it = g_deferred.begin(); it != g_deferred.end(); ++it)
+        if (!it->second.completed && it->first >= kEndA) { if (!penda.empty()) penda += ","; penda += std::to_string(it->first - kEndA); }
+      btail = " b:next=" + std::to_string(static_cast<long long>(lastNextB)) + " outs=" + (outsb.empty() ? "-" : outsb) +
+              " pend=" + (penda.empty() ? "-" : penda);
+    }
+    printf("%s ev=%s next=%lld outs=%s pend=%s%s\n", rejected ? "rejected" : "ok", ev.c_str(),
+           static_cast<long long>(lastNext), outs.empty() ? "-" : outs.c_str(), pend.empty() ? "-" : pend.c_str(), btail.c_str());
     fflush(stdout);
   }
   return 0;
